@@ -5,7 +5,7 @@ CHECK = dict(
     technique='deviation-bounded exhaustive enumeration of offence substitutions (every <= N positions x every offence kind) executed on the real loaders with Skip policies; exact typed-load reference model',
     level_text='Every document obtained from each well-typed base document by replacing any <= 2 (thorough 3) values at any depth by a value of another kind or out of range '
                '(nil, bool, int, 2^40, negative int, float, string, array, map, bin), loaded with Skip/Skip, Skip-overflow/Throw-mismatch and Throw-overflow/Skip-mismatch policies, '
-               'from memory and stream, in all four archives (restricted to what each format can carry); plus the same substitutions against real std::vector<int>, std::vector<class> and class targets, and (std-container scenario) against tuple<int,string,int>, array<int,3>, list, deque, forward_list, set, valarray, map, unordered_map, pair, optional, unique_ptr and vector<tuple>, each followed by a field, a second untouched holder and a sentinel (MsgPack, JSON, XML; memory and stream; also the MsgPack-only ts96/ts64/ext8/str8/array16 offences).',
+               'from memory and stream, in all four archives (restricted to what each format can carry); plus the same substitutions against real std::vector<int>, std::vector<class> and class targets, and (std-container scenario) against tuple<int,string,int>, array<int,3>, list, deque, forward_list, set, valarray, map, unordered_map, pair, optional, unique_ptr and vector<tuple>, each followed by a field, a second untouched holder and a sentinel (MsgPack, JSON, XML; memory and stream; also the MsgPack-only ts96/ts64/ext8/str8/array16 offences); and (target-kind scenario) against bool, int32, uint8, double, string, registered enum, time_point and duration fields carrying Required and a validator that records the isLoaded flag, <= 2 fields replaced by another kind or removed: reported loaded <=> target holds a document value, reported not loaded <=> previous value kept and Required listed for that path.',
     level_note='Trusted: models/num_model.hpp (allowed outcomes per (document value, target kind, policy); text-carrying formats judged by their lexical value), independent document emitters. '
                'XML cannot distinguish array from object or null from empty, those substitutions are excluded for XML.',
     rule='execution = one (archive, base document, offence set, policy, source); distinct_nontrivial = distinct executions with at least one offence',
